@@ -16,9 +16,10 @@ Open Scope list_scope.
 Definition ref_implemented (p : plugin) (e : Z) : bool :=
   existsb (fun h => implements p h && (proto_event h =? e)%Z) all_handlers.
 
-(* the mask with exactly the events p has a handler for *)
-Definition ref_mask (p : plugin) : Z :=
-  fold_left (fun m e => if ref_implemented p e then set_bit m e else m) event_bits 0%Z.
+(* the mask with exactly the events of the handlers p implements (he = the handler/event table) *)
+Definition ref_mask_t (he : list (handler * Z)) (p : plugin) : Z :=
+  fold_left (fun m x => if implements p (fst x) then set_bit m (snd x) else m) he 0%Z.
+Definition ref_mask (p : plugin) : Z := ref_mask_t handler_events p.
 
 (* every bit of m (any of the 32 bits of the int32, sign included) is a bit of ev *)
 Definition subset_of (m ev : Z) : bool := (Z.land m (Z.lnot ev) =? 0)%Z.
@@ -39,6 +40,10 @@ Definition holds_cfg (p : plugin) (hook : cfg_hook) (obs : cfg_result) : bool :=
 
 (* stub.New succeeds iff the plugin implements at least one of the thirteen handlers *)
 Definition ref_new_ok (p : plugin) : bool := existsb (implements p) all_handlers.
+
+(* setupHandlers meets the reference for plugin type p *)
+Definition ref_ok (he : list (handler * Z)) (p : plugin) : bool :=
+  (stub_events p =? ref_mask_t he p)%Z && Bool.eqb (new_ok p) (ref_new_ok p).
 
 (* ====================================================================== *)
 (* C15 — dispatch                                                          *)
